@@ -108,6 +108,9 @@ QUICK_SHAPES = [
        siblings=("/a/u/:w/p", "/a/u")),
     _s("sib-re", L("a/"), W("c"), L("/"), W("r", "re", "[0-9]x?"), flavour=2, holes=(2, 2), example=("u", "5"),
        siblings=("/a/u/<w>/p", "/a/<c>/<r:re:[0-9]x?>/q")),
+    # anonymous wildcards with a typed filter: their values go into url() positionally
+    _s("anon-int-lit", L("y/"), W(None, "int"), L("/"), W("s"), flavour=0, ascii=True, holes=(2, 1), example=("5", "q"), rewritten=True),
+    _s("anon-float", L("z/"), W(None, "float"), flavour=1, ascii=True, holes=(3,), example=("2.5",), rewritten=True),
     _s("anon-re", W(None, "re", "to."), holes=(4,), example=("tok",)),
     _s("anon-re-2", W(None, "re", "t."), L("/"), W(None, "re", "[at]."), holes=(2, 2), example=("tk", "ab")),
     _s("anon-named-mix", L("f/"), W(None, "re", "t."), L("/b"), W("some"), L("/"), W(None, "re", "a."), L("e"), holes=(2, 1, 2),
